@@ -1,7 +1,7 @@
 (* C06 — executable comparison functions used by the generated cases file (no proofs). *)
 From Coq Require Import List NArith Bool Arith.
 From Coq Require String Ascii.
-From Dae Require Import C06_Spec C06_Model C06_Async C06_Session C06_Clock.
+From Dae Require Import C06_Spec C06_Model C06_Async C06_Session C06_Clock C06_Key.
 Import ListNotations.
 Open Scope N_scope.
 
@@ -335,8 +335,39 @@ Definition sig_sess (c : sess_case) : N * N * N * N * N * N :=
    N.of_nat (length (pending stf)), N.of_nat (length dropped),
    match cs_failed stf with Some _ => 1 | None => 0 end).
 
-Inductive acase := ATcp (c : tcp_case) | AQuic (c : quic_case) | AAsync (c : async_case) | ASess (c : sess_case).
+(* ------------------------------------------------------------------ session key / fingerprint cases *)
+(* one datagram and, for each listed truncation length n, the packed observation of the real
+   NewPacketSnifferKey / parseQuicInitialFingerprint / ObserveQuicInitial on its first n bytes:
+   k + 4*f + 16*klen + 512*fdl + 16384*fsl + (obsPanic << 20); k, f: 0 nothing, 1 present and equal
+   to the datagram's bytes at their positions, 2 present but different, 3 panic *)
+Record key_case := { kc_data : bytes; kc_obs : list (N * N) }.
+
+Definition pack_key (k : rr (option bytes)) (f : rr (option (bytes * bytes * bytes))) : N :=
+  let '(kc, kl) := match k with Err _ => (3, 0) | Ok None => (0, 0) | Ok (Some d) => (1, blen d) end in
+  let '(fc, fd, fs) := match f with
+                       | Err _ => (3, 0, 0) | Ok None => (0, 0, 0)
+                       | Ok (Some (_, dc, sc)) => (1, blen dc, blen sc)
+                       end in
+  kc + 4 * fc + 16 * kl + 512 * fd + 16384 * fs.
+
+Definition check_key (c : key_case) : list N :=
+  flat_map (fun o =>
+    let d := firstn (N.to_nat (fst o)) (kc_data c) in
+    let impl := snd o in
+    let m := pack_key (key_dcid d) (fingerprint d) in
+    let sp := pack_key (Ok (spec_key_dcid d)) (Ok (spec_fingerprint d)) in
+    let panic := (impl mod 4 =? 3) || ((impl / 4) mod 4 =? 3) || (1048576 <=? impl) in
+    (if impl =? m then [] else [1]) ++ (if panic then [7] else if impl =? sp then [] else [2])
+    ++ (if m =? sp then [] else [3])) (kc_obs c).
+Definition sig_key (c : key_case) : N * N * N * N * N * N :=
+  let ds := map (fun o => firstn (N.to_nat (fst o)) (kc_data c)) (kc_obs c) in
+  (6, N.of_nat (length ds),
+   N.of_nat (length (filter (fun d => match spec_fingerprint d with Some _ => true | None => false end) ds)),
+   N.of_nat (length (filter (fun d => match spec_key_dcid d with Some _ => true | None => false end) ds)),
+   nth 5 (kc_data c) 0, if looks_initial (kc_data c) then 1 else 0).
+
+Inductive acase := ATcp (c : tcp_case) | AQuic (c : quic_case) | AAsync (c : async_case) | ASess (c : sess_case) | AKey (c : key_case).
 Definition check_case (a : acase) : list N :=
-  match a with ATcp c => check_tcp c | AQuic c => check_quic c | AAsync c => check_async c | ASess c => check_sess c end.
+  match a with ATcp c => check_tcp c | AQuic c => check_quic c | AAsync c => check_async c | ASess c => check_sess c | AKey c => check_key c end.
 Definition case_signature (a : acase) : N * N * N * N * N * N :=
-  match a with ATcp c => sig_tcp c | AQuic c => sig_quic c | AAsync c => sig_async c | ASess c => sig_sess c end.
+  match a with ATcp c => sig_tcp c | AQuic c => sig_quic c | AAsync c => sig_async c | ASess c => sig_sess c | AKey c => sig_key c end.
